@@ -7,7 +7,8 @@ Open Scope Z_scope.
 
 Inductive tstate := Idle | Inside (tk : nat) (acq ttl : Z).
 Record cfg := { now : Z; lock : option (nat * Z); tasks : nat -> tstate; fresh : nat }.
-Inductive event := Tick (dt : Z) | Try (i : nat) (ttl : Z) | Leave (i : nat) | ForeignUnlock (tk : nat).
+Inductive event := Tick (dt : Z) | Try (i : nat) (ttl : Z) | Leave (i : nat) | ForeignUnlock (tk : nat)
+  | Probe.    (* is_locked / one poll of is_locked(wait=...): reads liveness, changes nothing *)
 
 Definition updt (f : nat -> tstate) i v := fun j => if Nat.eqb j i then v else f j.
 Definition lock_live (c : cfg) := match lock c with Some (_, d) => now c <? d | None => false end.
@@ -38,6 +39,18 @@ Definition step (c : cfg) (e : event) : cfg * bool :=
   | ForeignUnlock tk =>
       if Nat.ltb tk (fresh c) then (c, false)          (* only tokens nobody was ever given *)
       else let '(l, r) := unlock c tk in ({| now := now c; lock := l; tasks := tasks c; fresh := fresh c |}, r)
+  | Probe => (c, lock_live c)
   end.
 Definition init : cfg := {| now := 0; lock := None; tasks := fun _ => Idle; fresh := O |}.
 Definition run (evs : list event) : cfg := fold_left (fun c e => fst (step c e)) evs init.
+
+(* memory.py is_locked(key, wait, step), alone on the key (nothing but time passes between its polls): while wait > 0 poll -
+   absent: False at once - then wait -= step and sleep(step); when the wait is used up one last poll decides.  Fuel bounds
+   the loop; None = out of fuel (excluded by the theorems' statements). *)
+Definition tick (c : cfg) (d : Z) : cfg := {| now := now c + d; lock := lock c; tasks := tasks c; fresh := fresh c |}.
+Fixpoint is_locked_wait (fuel : nat) (c : cfg) (w s : Z) : option bool :=
+  match fuel with
+  | O => None
+  | S f => if 0 <? w then (if lock_live c then is_locked_wait f (tick c s) (w - s) s else Some false)
+           else Some (lock_live c)
+  end.
